@@ -178,13 +178,55 @@ func OwnIsCore(h OwnHistory) bool {
 	return true
 }
 
+// OwnDeepOps: the core operations that touch references shared with other variables (the core
+// alphabet without the two string operations, which interact with no other core operation).
+func OwnDeepOps() []int {
+	var out []int
+	for i := 0; i < OwnCoreOps; i++ {
+		if n := OwnOps[i].Name; n != "str=str+x" && n != "b=[]byte(str)" {
+			out = append(out, i)
+		}
+	}
+	return out
+}
+
+// OwnHistoriesOver enumerates every history of exactly length l over the given operations.
+func OwnHistoriesOver(ops []int, l int, seeded bool) []OwnHistory {
+	var out []OwnHistory
+	idx := make([]int, l)
+	for {
+		h := OwnHistory{Seeded: seeded, Ops: make([]int, l)}
+		for k, i := range idx {
+			h.Ops[k] = ops[i]
+		}
+		out = append(out, h)
+		k := l - 1
+		for k >= 0 {
+			idx[k]++
+			if idx[k] < len(ops) {
+				break
+			}
+			idx[k] = 0
+			k--
+		}
+		if k < 0 {
+			break
+		}
+	}
+	return out
+}
+
 // OwnSpace is the frozen enumeration used by C11: every history of length <= fullLen over the
-// full alphabet plus every history of length <= coreLen over the core alphabet (those not
-// already covered), shortest first. The set is closed under subsequences.
-func OwnSpace(fullLen, coreLen int, seeded bool) []OwnHistory {
+// full alphabet, plus every longer history of length <= coreLen over the core alphabet, plus
+// every longer history of length <= deepLen over OwnDeepOps; shortest first. The set is closed
+// under subsequences.
+func OwnSpace(fullLen, coreLen, deepLen int, seeded bool) []OwnHistory {
 	out := OwnHistories(fullLen, seeded)
 	if coreLen > fullLen {
 		out = append(out, OwnHistoriesN(OwnCoreOps, fullLen+1, coreLen, seeded)...)
+	}
+	for l := max(fullLen, coreLen) + 1; l <= deepLen; l++ {
+		out = append(out, OwnHistoriesOver(OwnDeepOps(), l, seeded)...)
 	}
 	return out
 }
